@@ -156,7 +156,9 @@ func (h *Headers) Serialize(frh *FrameHeader) {
 		// prepend stream and weight to rawHeaders
 		h.rawHeaders = append(h.rawHeaders, 0, 0, 0, 0, 0)
 		copy(h.rawHeaders[5:], h.rawHeaders)
-		http2utils.Uint32ToBytes(h.rawHeaders[0:4], frh.stream)
+		// the priority section names the stream this one depends on, not the
+		// stream the frame is sent on: a stream cannot depend on itself
+		http2utils.Uint32ToBytes(h.rawHeaders[0:4], h.stream&(1<<31-1))
 		h.rawHeaders[4] = h.weight
 	}
 
